@@ -10,7 +10,7 @@ from gens import pack, fmt_hex
 from vlib import Broken
 
 ID = "C18"
-LEAN_MODULES = ["LexVerif.Props.C18", "LexVerif.Props.C18Builder", "LexVerif.Props.C18Options", "LexVerif.Props.Literals.UtilFormatFlags", "LexVerif.Props.Literals.UtilFeatureFormat", "LexVerif.Props.Literals.UtilNotFeatureFormat", "LexVerif.Props.Literals.UtilFormatBuilder", "LexVerif.Props.Literals.ParseFloatApi", "LexVerif.Props.Literals.ParseFloatOptions", "LexVerif.Props.Literals.ParseIntegerApi", "LexVerif.Props.Literals.WriteFloatOptions", "LexVerif.Props.Literals.WriteFloatWrite", "LexVerif.Props.Literals.WriteIntegerApi"]
+LEAN_MODULES = ["LexVerif.Props.Literals.UtilFormat", "LexVerif.Props.Literals.UtilAssert", "LexVerif.Props.Literals.ParseIntegerOptions", "LexVerif.Props.Literals.WriteIntegerOptions", "LexVerif.Props.C18", "LexVerif.Props.C18Builder", "LexVerif.Props.C18Options", "LexVerif.Props.Literals.UtilFormatFlags", "LexVerif.Props.Literals.UtilFeatureFormat", "LexVerif.Props.Literals.UtilNotFeatureFormat", "LexVerif.Props.Literals.UtilFormatBuilder", "LexVerif.Props.Literals.ParseFloatApi", "LexVerif.Props.Literals.ParseFloatOptions", "LexVerif.Props.Literals.ParseIntegerApi", "LexVerif.Props.Literals.WriteFloatOptions", "LexVerif.Props.Literals.WriteFloatWrite", "LexVerif.Props.Literals.WriteIntegerApi"]
 GEN = ["format_flags", "literals"]
 TRUSTED = [
     "Lean 4.33.0 kernel; axioms of each theorem listed under coverage.theorems",
